@@ -96,7 +96,9 @@ def gen_loop_script(rng) -> dict:
             "cost": cost, "bound": bound}
 
 
-POOLS = ([1, 2], [1, 2], [1, 2, 3], [7], [1, 777], [777, 778, 1])      # 777/778: equal objects are not identical
+POOLS = ([1, 2], [1, 2], [1, 2, 3], [7], [1, 777], [777, 778, 1],      # 777/778: equal objects are not identical
+         ["None", 1], ["None", 1, 2], [0, "None"], ["False", 0, 1], ["empty_str", "empty_tuple", "empty_dict"],
+         ["None", "False", 0, "empty_str"], [0, 1])                       # None and the other falsy values are values too
 
 
 def gen_history(rng, max_len: int, pool=None) -> list:
@@ -166,6 +168,9 @@ def gen_history(rng, max_len: int, pool=None) -> list:
 # recorder + taps
 # ---------------------------------------------------------------------------
 
+_NO = object()          # "no override" (None is a settings value like any other)
+
+
 class Rec:
     """Per-scenario recorder.  `log` is the linearisation: model events and oracle marks in one sequence."""
 
@@ -196,7 +201,7 @@ class Rec:
         return self.rpc_tid is not None and _threading.get_ident() == self.rpc_tid
 
     # -- abstraction of the real state --------------------------------------
-    def abs(self, settings_override=None) -> str:
+    def abs(self, settings_override=_NO) -> str:
         th, task, runner = self.thread, self.task, self.runner
         st = th._state.name if th is not None else "INITIAL"
         exc = 1 if (th is not None and th._exception is not None) else 0
@@ -207,15 +212,15 @@ class Rec:
             fifo = getattr(task, "_settings_fifo", None)
             if fifo is not None:
                 items = list(collections.deque.__iter__(fifo))
-                slot = ",".join(_val(x) for x in items) if items else "-"
-            cur = settings_override if settings_override is not None else task.__dict__.get("_c10_settings")
-            settings = _val(cur) if cur is not None else "-"
+                slot = ",".join(_code(x) for x in items) if items else "-"
+            cur = settings_override if settings_override is not _NO else task.__dict__.get("_c10_settings")
+            settings = _code(cur) if cur is not None else "-"
             stv = getattr(task, "status", None)
             status = _val(stv) if stv is not None else "-"
         joined = 1 if getattr(runner, "_joined", False) else 0
         return f"{st} {exc} {stop} {slot} {settings} {joined} {status}"
 
-    def ev(self, act: str, res: Optional[str], op: Optional[dict] = None, settings_override=None) -> None:
+    def ev(self, act: str, res: Optional[str], op: Optional[dict] = None, settings_override=_NO) -> None:
         if self.sched is not None and self.sched.aborting:
             return
         e = {"kind": "ev", "act": act, "res": res, "abs": self.abs(settings_override)}
@@ -241,9 +246,38 @@ def _val(x) -> str:
     return str(x)
 
 
+TOKENS = {"None": None, "False": False, "empty_str": "", "empty_tuple": (), "empty_dict": {}}
+
+
 def _fresh(v):
-    """an object equal to `v` but (for values outside CPython's small-int cache) not identical to any other copy"""
+    """History token -> the Python object that is posted: the falsy values by name, integers as an object equal to `v`
+    but (outside CPython's small-int cache) not identical to any other copy."""
+    if isinstance(v, str):
+        x = TOKENS[v]
+        return {} if isinstance(x, dict) else x
     return int(str(v)) if isinstance(v, int) and not isinstance(v, bool) else v
+
+
+def _code(x) -> str:
+    """Settings value -> the natural number that stands for it in the model (injective on the values the scripts use;
+    by type, so that False, 0, "" … stay apart although Python calls some of them equal).  0 = None."""
+    if x is None:
+        return "0"
+    if x is False:
+        return "2"
+    if isinstance(x, str) and x == "":
+        return "4"
+    if isinstance(x, tuple) and x == ():
+        return "5"
+    if isinstance(x, dict) and x == {}:
+        return "6"
+    if isinstance(x, int) and not isinstance(x, bool) and x >= 0:
+        return str(10 + x)
+    return "?" + type(x).__name__
+
+
+def _tok_code(tok) -> str:
+    return _code(_fresh(tok))
 
 
 def _ticks(t) -> str:
@@ -274,7 +308,7 @@ def _classes():
             if rec is not None:
                 v = args[0] if len(args) == 1 else args
                 rec.mark("pub", v)
-                rec.ev("updPub", "val:" + ("-" if v is None else _val(v)))
+                rec.ev("updPub", "val:" + ("-" if v is None else _code(v)))
             return super().publish(*args)
 
     class TapCond(D.Condition):
@@ -346,13 +380,13 @@ def _classes():
             super().append(x)
             rec = CUR
             if rec is not None:
-                rec.ev("set:" + _val(x), None, rec.cur_op)
+                rec.ev("set:" + _code(x), None, rec.cur_op)
 
         def appendleft(self, x):
             super().appendleft(x)
             rec = CUR
             if rec is not None:
-                rec.ev("set:" + _val(x), None, rec.cur_op)
+                rec.ev("set:" + _code(x), None, rec.cur_op)
 
     class ScriptTask(QMI_Task):
         # `settings` as a property only so that reads/writes are visible to the abstraction function
@@ -374,7 +408,7 @@ def _classes():
             self._settings_fifo = TapDeque(old, maxlen=old.maxlen)
             if type(self.sig_settings_updated) is QMI_RegisteredSignal:
                 self.sig_settings_updated.__class__ = TapSignal
-            if rec.script.get("settings0") is not None:
+            if rec.script.get("settings0") not in (None, "None"):
                 self.settings = _fresh(rec.script["settings0"])     # as a task class does in its __init__
             rec.task = self
             if rec.script["init"] == "fail_post":
@@ -490,7 +524,7 @@ def _classes():
             if type(self.sig_status_updated) is QMI_RegisteredSignal:
                 self.sig_status_updated.__class__ = TapStatusSignal
             self._calls = collections.Counter()
-            if sc.get("settings0") is not None:
+            if sc.get("settings0") not in (None, "None"):
                 self.settings = _fresh(sc["settings0"])
             rec.task = self
 
@@ -747,7 +781,7 @@ class _Taps:
                     if short == "is_running":
                         final = "true" if r is True else ("false" if r is False else "?" + repr(r))
                     elif short in ("get", "pend", "status"):
-                        final = "val:" + ("-" if r is None else _val(r))
+                        final = "val:" + ("-" if r is None else (_val(r) if short == "status" else _code(r)))
                         rec.ev({"get": "getSettings", "pend": "getPending", "status": "getStatus"}[short], final)
                     else:
                         final = "unit" if r is None else "?" + repr(r)
@@ -924,8 +958,8 @@ def run_case(case: dict) -> Obs:
 
 def lines_of(obs: Obs, script: Optional[dict] = None) -> list:
     lines = ["init"]
-    if script is not None and script.get("settings0") is not None and script.get("init") != "fail_pre":
-        lines = ["init %d" % script["settings0"]]
+    if script is not None and script.get("settings0") not in (None, "None") and script.get("init") != "fail_pre":
+        lines = ["init " + _tok_code(script["settings0"])]
     if script is not None and script.get("kind") == "loop":
         lines.append("linit %s %s" % (_ticks(script["period"]), script["policy"]))
     for e in obs.log:
@@ -1081,14 +1115,14 @@ def oracle(case: dict, obs: Obs) -> list:
         if i in result and result[i] != ("ok", None):
             bad.append(("set-settings-raised", f"op {i}: {result[i]}"))
     upd_calls = [i for i, m in marks if m[0] == "upd_call"]
-    upd_rets = [(i, m[1], m[2]) for i, m in marks if m[0] == "upd_ret"]
+    upd_rets = [(i, m[1], _code(m[2])) for i, m in marks if m[0] == "upd_ret"]     # values compared as model codes
     # Posts are numbered 1..n in issue order (runner operations are serial); values may repeat, so everything is
     # decided on ordinals and time windows, never on the values being distinct.  `cons` = the ordinals that may be the
     # post the task consumed last (0 = none yet): a post racing with an update may or may not have landed before the pop.
-    v0 = script.get("settings0")
+    v0 = _tok_code(script["settings0"]) if script.get("settings0") is not None else "0"
     pval = {0: v0}
     for k, (i, v) in enumerate(posts, 1):
-        pval[k] = v
+        pval[k] = _tok_code(v)
     pord = [(k, i) for k, (i, v) in enumerate(posts, 1)]
     cons = {0}
     for (c, (rpos, rv, seen)) in zip(upd_calls, upd_rets):
@@ -1127,7 +1161,7 @@ def oracle(case: dict, obs: Obs) -> list:
             break
         cons = nxt_cons
     # publication of adopted settings: exactly one per successful update, carrying the adopted value, none otherwise
-    pubs = [(i, m[1]) for i, m in marks if m[0] == "pub"]
+    pubs = [(i, _code(m[1])) for i, m in marks if m[0] == "pub"]
     used = set()
     for (c, (rpos, rv, seen)) in zip(upd_calls, upd_rets):
         mine = [(i, v) for i, v in pubs if c < i < rpos]
@@ -1178,10 +1212,11 @@ def oracle(case: dict, obs: Obs) -> list:
             # an update that started but whose return mark is missing (task aborted) may also have taken it
             open_upd = len(upd_calls) > len(upd_rets) and upd_calls[-1] < pos_ret[i]
             if r[1] is None:
-                if last_k and not may_take and not open_upd:
+                # None = nothing pending, or a posted None pending: indistinguishable by design of get_pending_settings
+                if last_k and lastv != "0" and not may_take and not open_upd:
                     bad.append(("pending-lost", f"op {i}: post #{last_k} = {lastv!r} not consumed, get_pending_settings() = None"))
-            elif not last_k or r[1] != lastv:
-                bad.append(("pending-not-newest", f"op {i}: {r[1]!r}, last posted {lastv!r}"))
+            elif not last_k or _code(r[1]) != lastv:
+                bad.append(("pending-not-newest", f"op {i}: {r[1]!r} (code {_code(r[1])}), last posted code {lastv!r}"))
             elif must_take:
                 bad.append(("pending-after-consumed", f"op {i}: {r[1]!r} was already taken by the task"))
         elif k == "get" and i in result:
@@ -1190,7 +1225,7 @@ def oracle(case: dict, obs: Obs) -> list:
                 bad.append(("get-settings-raised", f"op {i}: {r}"))
                 continue
             taken = [s for (c, (rpos, rv, s)) in zip(upd_calls, upd_rets) if rv is True and c < pos_ret[i]]
-            if r[1] not in taken and r[1] != v0:
+            if _code(r[1]) not in taken and _code(r[1]) != v0:
                 bad.append(("get-settings-unknown-value", f"op {i}: {r[1]!r}, task took {taken}, initial {v0!r}"))
     if script.get("kind") == "loop":
         bad += _loop_oracle(script, marks, run_exits, obs)
@@ -1283,8 +1318,8 @@ def _loop_oracle(script: dict, marks: list, run_exits: list, obs: "Obs") -> list
     last_seen = None
     for _, m in marks:
         if m[0] == "upd_ret" and m[1] is True:
-            last_seen = m[2]
-        elif m[0] == "process_sees" and m[1] != last_seen:
+            last_seen = _code(m[2])
+        elif m[0] == "process_sees" and _code(m[1]) != last_seen:
             bad.append(("loop-process-sees-stale-settings", f"{m[1]!r} vs adopted {last_seen!r}"))
     return bad
 
@@ -1486,6 +1521,14 @@ class C10(Prop):
             (seq, [["set", 777], "start", "get", ["set", 778], ["set", 777], "pend", "stop", "join", "get"]),       # equal, not identical
             (upd4, [["set", 1], ["set", 1], "pend", "start", "join", "get", ["set", 1], "pend"]),                   # A A, then A after the end
             (dict(upd4, settings0=2), [["set", 2], "pend", "enter", ["set", 2], "pend", "exit", "get"]),
+            # None and the other falsy values are settings like any other
+            (seq, [["set", 1], "start", "get", ["set", "None"], "pend", "stop", "join", "get"]),                    # A | None
+            (seq, [["set", 1], "start", "get", ["set", 2], ["set", "None"], "pend", "stop", "join", "get"]),       # A | B None
+            (seq0, [["set", "None"], "pend", "start", "get", ["set", 0], "stop", "join", "get"]),
+            (upd4, [["set", "None"], "start", "join", "get", "pend"]),
+            (seq, [["set", 0], "start", "get", ["set", "False"], ["set", "empty_str"], "pend", "stop", "join", "get"]),
+            (seq, [["set", "empty_tuple"], "start", "get", ["set", "empty_dict"], "pend", "stop", "join", "get"]),
+            (seq, [["set", "False"], "start", "get", ["set", 0], "pend", "stop", "join", "get"]),                  # False then 0 (== but different)
         ]:
             fixed.append((script, hist))
 
@@ -1522,6 +1565,8 @@ class C10(Prop):
             (race, [["set", 1], "start", ["set", 1], ["set", 2], ["set", 2], "pend", ["set", 1], "join", "pend"]),
             (race0, ["start", ["set", 1], "pend", ["set", 2], ["set", 1], "pend", "join", "get"]),
             (race0, [["set", 2], ["set", 1], "pend", "start", ["set", 777], ["set", 777], ["set", 1], "join", "get"]),
+            (race, ["start", ["set", 1], ["set", "None"], ["set", 2], "pend", ["set", "None"], "join", "get"]),
+            (race0, ["start", ["set", 0], ["set", "False"], ["set", "empty_str"], "pend", "join", "get"]),
         ]
         k = 0
         for cp in range(60, 300, ctx.scale(8, 2)):
@@ -1573,7 +1618,7 @@ class C10(Prop):
                 for hist in itertools.product(alphabet, repeat=n):
                     v = 0
                     h = []
-                    pattern = [[1, 2, 1, 2], [1, 1, 2, 2], [2, 1, 1, 2], [1, 2, 3, 4]][scripts.index(script) % 4]
+                    pattern = [[1, "None", 1, 2], [1, 1, 2, 2], [0, "None", "False", 2], ["None", 1, 2, "None"]][scripts.index(script) % 4]
                     for o in hist:
                         if o == "SET":
                             v += 1
